@@ -7,8 +7,8 @@ import vf
 
 PROP = 'C02'
 CFG = {
-    'quick': dict(char='gen/MC_C02char_q.cfg', tok='gen/MC_C02tok.cfg', deep='gen/MC_C02deep_q.cfg', equiv='gen/MC_JsonEquiv.cfg'),
-    'thorough': dict(char='gen/MC_C02char_t.cfg', tok='gen/MC_C02tok_t.cfg', deep='gen/MC_C02deep.cfg', equiv='gen/MC_JsonEquiv.cfg'),
+    'quick': dict(char='gen/MC_C02char_q.cfg', tok='gen/MC_C02tok.cfg', deep='gen/MC_C02deep_q.cfg', mem='gen/MC_C02mem_q.cfg', equiv='gen/MC_JsonEquiv.cfg'),
+    'thorough': dict(char='gen/MC_C02char_t.cfg', tok='gen/MC_C02tok_t.cfg', deep='gen/MC_C02deep.cfg', mem='gen/MC_C02mem_t.cfg', equiv='gen/MC_JsonEquiv.cfg'),
 }
 
 
@@ -33,7 +33,8 @@ def gens(tier):
     c = CFG[tier]
     return [vf.tlc_gen('gen/MC_C02char', c['char'], timeout=1500),
             vf.tlc_gen('gen/MC_C02tok', c['tok'], timeout=1500),
-            vf.tlc_gen('gen/MC_C02tok', c['deep'], timeout=1500)]
+            vf.tlc_gen('gen/MC_C02tok', c['deep'], timeout=1500),
+            vf.tlc_gen('gen/MC_C02tok', c['mem'], timeout=1500)]
 
 
 def setup():
@@ -60,7 +61,7 @@ def run(tier):
     cov['exhaustive'] = True
     cov['rule'] = ('every viable prefix (and each minimal dead extension) of RFC 8259 texts over a 27-character class alphabet up to the '
                    'configured length, every sequence of whole tokens (86 tokens: punctuation, comments, literals, 32 number literals, '
-                   '37 string literals) up to the configured count, and deep sequences over an 11-token alphabet; each distinct text is '
+                   '37 string literals) up to the configured count, deep sequences over an 11-token alphabet, and objects built from up to 3/4 whole members (2 names x 8 value kinds: duplicate names in every position); each distinct text is '
                    'one case; x {allow_comments} x {allow_trailing_comma} x max_nesting_depth in {default, depth, depth-1} x 5 entry points')
     cov['bounds'] = {k: open(os.path.join(vf.SPEC, v)).read().split('CONSTANTS')[1].split() for k, v in CFG[tier].items()}
     cov['samples'] = vf.sample_lines(g[1][0], 2) + vf.sample_lines(g[2][0], 1)
